@@ -89,8 +89,12 @@ pub fn generate_terminal_name(
                 }
                 (cap, acc)
             });
-        if name.is_empty() && !s.is_empty() {
+        if (name.is_empty() && !s.is_empty()) || (!name.is_empty() && name.chars().all(|c| c == '_')) {
+            // Nothing usable for a name, e.g. only characters without a replacement
             "Esc".to_owned()
+        } else if name == "Self" {
+            // Not a valid identifier
+            "Self_".to_owned()
         } else if name.starts_with(|c: char| c.is_numeric()) {
             format!("_{}", name)
         } else {
